@@ -3,9 +3,9 @@
 package c10
 
 import (
-	"syscall"
 	"fmt"
 	"sort"
+	"syscall"
 	"testing"
 	"time"
 
@@ -913,6 +913,8 @@ func TestC10(t *testing.T) {
 			Case
 			Flood string `json:"flood"`
 			Inner *FCase `json:"case"`
+			B2B   *BCase `json:"back_to_back"`
+			Retr  int    `json:"retrans"`
 		}
 		if err := vcore.LoadReplayCase(f, &w); err != nil {
 			t.Fatalf("replay %s: %v", f, err)
@@ -921,6 +923,18 @@ func TestC10(t *testing.T) {
 			vcore.E.Eval()
 			vcore.E.Class("replayed")
 			vcore.Report(t, runFlood(*w.Inner), map[string]any{"flood": w.Flood, "case": w.Inner})
+			continue
+		}
+		if w.B2B != nil {
+			vcore.E.Eval()
+			vcore.E.Class("replayed")
+			vcore.Report(t, runBackToBack(*w.B2B), map[string]any{"back_to_back": w.B2B})
+			continue
+		}
+		if w.Retr > 0 {
+			vcore.E.Eval()
+			vcore.E.Class("replayed")
+			vcore.Report(t, runRetrans(w.Retr), map[string]any{"retrans": w.Retr})
 			continue
 		}
 		c := w.Case
@@ -934,6 +948,7 @@ func TestC10(t *testing.T) {
 	}
 	floodPart(t)
 	retransPart(t)
+	backToBackPart(t)
 	vcore.Check(t, vcore.N(600, 7500), func(rt *rapid.T) {
 		c := gen(rt)
 		v, s := run(c)
